@@ -121,7 +121,7 @@ func newExplorer(l *loaded, workers int) *Explorer {
 	ex := &Explorer{prog: l.prog, workers: workers, leafSample: 1, maxLeaves: 0, depGlobals: map[string]*Value{}}
 	ex.cond = syncCond(&ex.mu)
 	ex.repoPkgs, ex.repoGlobals = collectRepoGlobals(l.prog)
-	for _, name := range []string{"strconv.ErrSyntax", "strconv.ErrRange", "io.EOF"} {
+	for _, name := range []string{"strconv.ErrSyntax", "strconv.ErrRange", "io.EOF", "net/http.ErrAbortHandler", "net/http.ErrHandlerTimeout"} {
 		var v Value = opaqueErr(name)
 		ex.depGlobals[name] = &v
 	}
